@@ -17,6 +17,10 @@ type c05Case struct {
 	KeyAlg    string // "" = omitted
 	SigAlg    string // "" = omitted
 	IssuerAlg string // "" = self-signed root; else the key algorithm of the (pre-placed) issuer
+	// PrePlaced: the subject's key comes from the committed pool instead of being generated (used only for
+	// the signature-identifier half of the property on RSA-4096/8192, whose generation is too slow for the quick tier)
+	PrePlaced bool `json:",omitempty"`
+	Repeat    int  `json:",omitempty"` // distinguishes repeated draws of the same cell (fresh random keys)
 }
 
 // documented meaning of the EC names (RFC 5480 / RFC 5639 object identifiers)
@@ -41,6 +45,9 @@ func checkC05(c c05Case) (*core.Failure, string) {
 		signerAlg = c.IssuerAlg
 	}
 	w.Ents = append(w.Ents, ent)
+	if c.PrePlaced {
+		w.Files["subject.pem"] = core.PemBlock("PRIVATE KEY", pkcs8Fixed(c.KeyAlg, 3))
+	}
 	wantSig := c.SigAlg
 	if wantSig == "" {
 		wantSig = defaultSigFor(c.KeyAlg)
@@ -99,7 +106,7 @@ func checkC05(c c05Case) (*core.Failure, string) {
 func TestC05(t *testing.T) {
 	r := core.Start(t, "C05")
 	defer r.Finish()
-	r.Rule = "exhaustive table: keyAlgorithm in {omitted, 14 names} x signatureAlgorithm in {omitted, 8 names} for self-signed roots, and the same table below pre-placed RSA-2048, P-384 and brainpoolP384r1 issuers (keys are generated by gopki for the subject, never pre-placed). Quick tier leaves out the cells that generate RSA-4096/RSA-8192 keys (0.8 s / ~50 s per key); thorough runs all of them. Oracle: decoded PRIVATE KEY block (modulus length / curve OID from RFC 5480/5639), SPKI algorithm and parameters, SPKI bits == public key recomputed from the private key (own d*G), signature OIDs. Non-trivial = cell whose signature algorithm fits the signing key (a certificate must exist); every cell counts once."
+	r.Rule = "exhaustive table: keyAlgorithm in {omitted, 14 names} x signatureAlgorithm in {omitted, 8 names} for self-signed roots, and the same table below pre-placed RSA-2048, P-384 and brainpoolP384r1 issuers (keys are generated by gopki for the subject, never pre-placed). Quick tier leaves out the cells that generate RSA-4096/RSA-8192 keys (0.8 s / ~50 s per key); thorough runs all of them. Oracle: decoded PRIVATE KEY block (modulus length / curve OID from RFC 5480/5639), SPKI algorithm and parameters, SPKI bits == public key recomputed from the private key (own d*G), signature OIDs. Additionally every EC curve is generated 60 (quick) / 1200 (thorough) more times (value-dependent encodings), and the RSA-4096/8192 signature-identifier cells are run with pooled pre-placed keys in both tiers. Non-trivial = cell whose signature algorithm fits the signing key (a certificate must exist); every cell (and repeat) counts once."
 	r.Assumptions = []string{"omitted keyAlgorithm: P-256 and P-224 both accepted (the documentation names both)", "cells whose signature algorithm does not fit the signing key must fail; that part is C01's and only counted here"}
 	wrap := func(c c05Case) *core.Failure {
 		f, kind := checkC05(c)
@@ -153,7 +160,35 @@ func TestC05(t *testing.T) {
 			}
 		}
 	}
-	r.Extra["cells_skipped_for_cost"] = skipped
+	// fresh keys on every brainpool and NIST curve, many times: encodings that depend on the key value
+	// (a coordinate or scalar with a leading zero byte occurs once in ~128 keys) need volume
+	reps := r.Pick(60, 1200)
+	for _, ka := range ecKeyAlgs {
+		for rep := 0; rep < reps; rep++ {
+			i++
+			if !r.Mine(i) || r.Expired() {
+				continue
+			}
+			c := c05Case{KeyAlg: ka, SigAlg: "", IssuerAlg: []string{"", "P-384"}[rep%2], Repeat: rep + 1}
+			r.Report("cell", c, wrap(c))
+		}
+	}
+	// signature identifier defaults for the RSA sizes whose keys are too slow to generate in the quick tier
+	for _, ka := range []string{"RSA-4096", "RSA-8192"} {
+		for _, issuer := range []string{"", "RSA-2048", "P-384"} {
+			for _, sa := range []string{"", "RSAwithSHA512", "ECDSAwithSHA384"} {
+				i++
+				if !r.Mine(i) || r.Expired() {
+					continue
+				}
+				c := c05Case{KeyAlg: ka, SigAlg: sa, IssuerAlg: issuer, PrePlaced: true}
+				r.Report("cell", c, wrap(c))
+			}
+		}
+	}
+	if r.Shard == 0 {
+		r.Extra["cells_skipped_for_cost"] = skipped
+	}
 	r.Exhaustive = !r.Quick() && !r.TimedOut
 	_ = ecref.ConfigNames
 }
